@@ -149,6 +149,7 @@ func (p *propC12) genStream(r *Rng, h ftMesg, arch int) *RecStream {
 		return d
 	}
 	initAccumSources()
+	zoneBase := int64(r.Intn(2*50400+1) - 50400)
 	data := func(d *DefOp) []byte {
 		var out []byte
 		for _, fd := range d.Fields {
@@ -171,6 +172,15 @@ func (p *propC12) genStream(r *Rng, h ftMesg, arch int) *RecStream {
 				putN(b, d.be(), uint64(v))
 			case pf != nil && pf.Kind == kindLocal:
 				off := int64(r.Intn(57)-28) * 1800
+				switch r.Intn(4) {
+				case 0:
+					// the stream's own zone, or a few seconds next to it (two clocks that
+					// are not aligned to the second): offsets that differ by less than
+					// any bucket a cache might use
+					off = zoneBase + int64(r.Intn(5)-2)
+				case 1:
+					off = int64(r.Intn(2*50400+1) - 50400) // any second within +-14 h
+				}
 				v := int64(ref) + off
 				if r.Chance(1, 12) {
 					v = 0xFFFFFFFF
